@@ -85,12 +85,13 @@ fn exec14(cx: &mut Ctx, c: &C14Case) {
         a.set_stream_param(0, c.ctr);
         a.set_stream_param(1, c.sid);
         let mut b = a.clone();
-        let mut wide = [0u8; 256];
+        // output buffers hold other data before the call (a result buffer that is refilled)
+        let mut wide = [0xC3u8; 256];
         a.refill4(c.drounds, &mut wide);
         let mut narrow = [0u8; 256];
         let mut after1 = 0u64;
         for i in 0..4 {
-            let mut o = [0u8; 64];
+            let mut o = [0x3Cu8; 64];
             b.refill(c.drounds, &mut o);
             narrow[64 * i..64 * i + 64].copy_from_slice(&o);
             if i == 0 {
@@ -276,7 +277,7 @@ fn exec15(cx: &mut Ctx, c: &C15Case) {
                 cx.log.class(&format!("c15/get{}", p));
             }
             Op::R1(dr) => {
-                let mut o = [0u8; 64];
+                let mut o = [0x3Cu8; 64];
                 if let Err(e) = guarded(|| s.refill(*dr, &mut o)) {
                     cx.log.panic_violation(&format!("{}|op=refill", sigp), &e);
                     break;
@@ -290,7 +291,7 @@ fn exec15(cx: &mut Ctx, c: &C15Case) {
                 cx.log.class("c15/refill");
             }
             Op::R4(dr) => {
-                let mut o = [0u8; 256];
+                let mut o = [0xB5u8; 256];
                 if let Err(e) = guarded(|| s.refill4(*dr, &mut o)) {
                     cx.log.panic_violation(&format!("{}|op=refill4", sigp), &e);
                     break;
@@ -404,7 +405,7 @@ fn exec15(cx: &mut Ctx, c: &C15Case) {
                     // a state built directly with the same values must behave identically
                     let mut x = other.clone();
                     let mut y = s.clone();
-                    let (mut ox, mut oy) = ([0u8; 64], [0u8; 64]);
+                    let (mut ox, mut oy) = ([0x11u8; 64], [0xEEu8; 64]);
                     if let Err(p) = guarded(|| {
                         x.refill(10, &mut ox);
                         y.refill(10, &mut oy);
